@@ -321,6 +321,15 @@ inline Counter& point_counter(const char* name) {
   return counter(std::string("point:") + name);
 }
 
+// Name comparison outside TSan's view: stall-point names are interned by the thread that
+// draws the policy and compared by whatever thread passes a point; instrumenting the compare
+// would either report that (harness-only) race or, with release/acquire, add a happens-before
+// edge between the policy drawer and every library thread.
+__attribute__((no_sanitize("thread"), noinline)) inline bool point_name_equal(const char* a, const char* b) noexcept {
+  if (a == b) return true;
+  while (*a && *a == *b) { ++a; ++b; }
+  return *a == *b;
+}
 // The single entry used by library hooks and by harness callbacks alike.
 inline void perturb(const char* name) noexcept {
   Counter& c = point_counter(name);
@@ -331,7 +340,7 @@ inline void perturb(const char* name) noexcept {
   for (int i = 0; i < n; ++i) {
     StallPoint& sp = p.stalls[i];
     const char* spn = sp.name.load(std::memory_order_relaxed);
-    if (spn != nullptr && (spn == name || strcmp(spn, name) == 0)) {
+    if (spn != nullptr && point_name_equal(spn, name)) {
       uint64_t k = sp.hits.fetch_add(1, std::memory_order_relaxed) + 1;
       if (k == sp.kth.load(std::memory_order_relaxed)) {
         sp.fired.fetch_add(1, std::memory_order_relaxed);
@@ -587,7 +596,7 @@ inline int finish() {
 // `grace_s`. It returns true if the logical preconditions of the stuck rule
 // hold (balanced workload, every counterpart returned): then the hang is a
 // violation with the thread dump as witness; otherwise the run is inconclusive.
-inline std::string thread_dump() {
+__attribute__((no_sanitize("thread"))) inline std::string thread_dump() {
   std::string o;
   auto* all = thread_states();
   for (int i = 0; i < kMaxThreads; ++i) {
@@ -622,7 +631,7 @@ inline std::string thread_dump() {
 // true if some registered thread sleeps in FUTEX_WAIT on a word whose value
 // differs from the value it went to sleep on (the kernel would have refused the
 // wait): a wake-up that was owed and never delivered.
-inline bool any_sleeper_with_changed_word() {
+__attribute__((no_sanitize("thread"))) inline bool any_sleeper_with_changed_word() {
   auto* all = thread_states();
   for (int i = 0; i < kMaxThreads; ++i) {
     if (all[i].tid.load(std::memory_order_relaxed) == 0) continue;
